@@ -25,9 +25,7 @@ ASSUMPTIONS = [
     'conventions of C01 for the reference',
 ]
 
-# main lanes step around the open finding "past operator with memory over an operand of positive horizon" by construction
-BFUT = Profile(un_temp=F.UN_PAST + ('next', 's_next'), bin_temp=F.BIN_PAST, tbin=('since', 'until'), max_bound=3, max_depth=4,
-               no_future_under_past=True)
+BFUT = Profile(un_temp=F.UN_PAST + ('next', 's_next'), bin_temp=F.BIN_PAST, tbin=('since', 'until'), max_bound=3, max_depth=4)
 BFUT_ALL = BFUT.copy(no_future_under_past=False)
 PASTP = Profile(un_temp=F.UN_PAST, bin_temp=F.BIN_PAST, tun=F.TUN_PAST, tbin=F.TBIN_PAST, max_bound=4)
 
@@ -258,11 +256,39 @@ def cand_reject(case):
             yield c
 
 
+@st.composite
+def past_over_future_cases(draw, tier):
+    """Past operators with memory directly over operands of positive horizon (nested both ways)."""
+    p = _p(tier, BFUT_ALL, max_depth=3)
+    f, vs = draw(F.formulas(p))
+    for _ in range(draw(st.integers(1, 3))):
+        b = draw(st.integers(0, 3))
+        a = draw(st.integers(0, b))
+        g, _ = draw(F.formulas(p.copy(max_depth=2), variables=vs))
+        kind = draw(st.sampled_from(['fut', 'fut', 'past1', 'past1', 'past2', 'tpast1', 'tpast2', 'bool']))
+        if kind == 'fut':
+            f = draw(st.sampled_from([('tun', 'eventually', a, b, f), ('tun', 'always', a, b, f), ('un', 'next', f), ('tbin', 'until', a, b, g, f),
+                                      ('tbin', 'until', a, b, f, g)]))
+        elif kind == 'past1':
+            f = ('un', draw(st.sampled_from(['once', 'historically', 'prev', 's_prev', 'rise', 'fall'])), f)
+        elif kind == 'past2':
+            f = ('bin', 'since', f, g) if draw(st.booleans()) else ('bin', 'since', g, f)
+        elif kind == 'tpast1':
+            f = ('tun', draw(st.sampled_from(['once', 'historically'])), a, b, f)
+        elif kind == 'tpast2':
+            f = ('tbin', 'since', a, b, f, g) if draw(st.booleans()) else ('tbin', 'since', a, b, g, f)
+        else:
+            f = ('bin', draw(st.sampled_from(['and', 'or', 'implies'])), f, g)
+    h = F.horizon(f) or 0
+    n = h + draw(st.sampled_from([1, 2, 3, 4, 6, 8]))
+    return {'formula': f, 'vars': vs, 'trace': draw(F.traces(vs, n=n))}
+
+
 def check_finding(case):
-    """Finding lane: only cases of the known class; they either pass or fail with the known key."""
+    """Lane that concentrates on past operators over operands of positive horizon (an open finding until 0eaf2e3)."""
     f = from_json(case['formula'])
     if 'past-op-over-future-operand' not in classify(f):
-        return DISCARD('not-in-class')
+        return PASS(False, ['not-past-over-future'])
     return check_main(case)
 
 
@@ -294,7 +320,7 @@ LANES = [
     Lane('units', lambda tier: _units_cases(tier, False), check_units, 1500, 20000, std_candidates),
     Lane('units_pastonly', lambda tier: _units_cases(tier, True), check_units, 800, 10000, std_candidates),
     Lane('main', lambda tier: main_cases(tier), check_main, 4000, 60000, std_candidates),
-    Lane('warmup', lambda tier: main_cases(tier, BFUT_ALL), check_finding, 600, 6000, std_candidates),
+    Lane('warmup', lambda tier: past_over_future_cases(tier), check_finding, 1000, 15000, std_candidates),
     Lane('pastonly', strat_pastonly, check_pastonly, 1500, 20000, std_candidates),
     Lane('reject', lambda tier: reject_cases(tier), check_reject, 600, 5000, cand_reject),
 ]
